@@ -226,7 +226,9 @@ func c07Gen(r *rand.Rand, n int, tier string) []string {
 		clock := int64(100)
 		tick := func() int64 { clock += 2; return clock }
 		nt := func(t string) string { return fmt.Sprintf("%s,-,0,%s,%d,0,-,-", hxs("nodeType"), hxs(t), tick()) }
-		tomb := func(v int) string { return fmt.Sprintf("%s,-,%s,-,%d,0,-,-", hxs("tombstone"), valStr(float64(v)), tick()) }
+		tomb := func(v int) string {
+			return fmt.Sprintf("%s,-,%s,-,%d,0,-,-", hxs("tombstone"), valStr(float64(v)), tick())
+		}
 		settled := r.Intn(3) > 0
 		ops := []string{"X"}
 		if settled {
